@@ -765,6 +765,8 @@ impl<P: Payload> TaskCtx<P> {
                     Err(_) => (Res::Panicked(rt::exec::LAST_PANIC.with(|p| p.borrow().clone())), no),
                 }
             }
+            // driven by run_join from the task loop; anywhere else it does nothing
+            Op::FutJoin { .. } => (Res::Skipped, no),
             Op::FutDrop { f } => {
                 let Some(slot) = self.futs.get_mut(*f as usize) else { return (Res::Skipped, no) };
                 let Some(fs) = slot.take() else { return (Res::Skipped, no) };
@@ -881,6 +883,94 @@ impl<P: Payload> TaskCtx<P> {
     }
 
     /// implicit end-of-task clean-up, recorded as ordinary ops
+    /// `Op::FutJoin`: one executor for all live futures of this task. Every poll is a `FutPoll` record, every
+    /// park phase a `FutJoin` record. Drawn values: 0 always means "no fault / first choice" (shrinker convention).
+    fn run_join(&mut self, idx: usize, op: &Op) {
+        let Op::FutJoin { shared_waker, p_spurious, p_new_waker } = op else { return };
+        let (shared, p_spur, p_new) = (*shared_waker, *p_spurious as u64, *p_new_waker as u64);
+        let tid = self.tid;
+        let n = self.futs.len();
+        let mut done: Vec<bool> = self.futs.iter().map(|f| f.is_none()).collect();
+        let mut polled = vec![false; n];
+        let mut shared_w = SimWaker::new(tid);
+        if shared {
+            for f in self.futs.iter_mut().flatten() {
+                f.waker = shared_w.clone();
+            }
+        }
+        let fault = |p: u64| p > 0 && rt::draw(100) >= 100 - p;
+        loop {
+            if done.iter().all(|d| *d) {
+                break;
+            }
+            let mut todo: Vec<usize> = Vec::new();
+            if shared {
+                let renew = polled.iter().any(|x| *x) && fault(p_new);
+                let woken = shared_w.flag.swap(false, O::Relaxed);
+                if renew {
+                    // the task's waker changed: the executor now listens to the new one only, and every
+                    // pending future is polled with it
+                    shared_w = SimWaker::new(tid);
+                    for (f, slot) in self.futs.iter_mut().enumerate() {
+                        if let (Some(fs), false) = (slot.as_mut(), done[f]) {
+                            fs.waker = shared_w.clone();
+                        }
+                    }
+                    self.log.borrow_mut().counters[1] += 1;
+                }
+                for f in 0..n {
+                    if !done[f] && (!polled[f] || woken || renew || fault(p_spur)) {
+                        todo.push(f);
+                    }
+                }
+            } else {
+                for f in 0..n {
+                    if done[f] {
+                        continue;
+                    }
+                    let woken = self.futs[f].as_ref().unwrap().waker.flag.swap(false, O::Relaxed);
+                    if !polled[f] || woken || fault(p_spur) {
+                        if polled[f] && !woken {
+                            self.log.borrow_mut().counters[0] += 1;
+                        }
+                        todo.push(f);
+                    }
+                }
+            }
+            if todo.is_empty() {
+                let r = self.begin(idx, op);
+                loop {
+                    let any = if shared {
+                        shared_w.flag.load(O::Relaxed)
+                    } else {
+                        (0..n).any(|f| !done[f] && self.futs[f].as_ref().unwrap().waker.flag.load(O::Relaxed))
+                    };
+                    if any {
+                        break;
+                    }
+                    rt::park();
+                }
+                self.end(r, Res::Unit, OptAfter::NotOption);
+                continue;
+            }
+            // poll order: a drawn rotation (0 = in creation order)
+            let k = if todo.len() > 1 { rt::draw(todo.len() as u64) as usize } else { 0 };
+            todo.rotate_left(k);
+            for f in todo {
+                let new_waker = !shared && polled[f] && fault(p_new);
+                if new_waker {
+                    self.log.borrow_mut().counters[1] += 1;
+                }
+                self.run_op(idx, &Op::FutPoll { f: f as u8, new_waker });
+                polled[f] = true;
+                let res = self.log.borrow().recs[self.cur].res.clone();
+                if res != Res::Pending {
+                    done[f] = true;
+                }
+            }
+        }
+    }
+
     fn finish(&mut self, mut idx: usize) {
         if self.stream.is_some() {
             self.run_op(idx, &Op::StreamDrop);
@@ -1018,6 +1108,10 @@ pub fn run_case<P: Payload>(case: Rc<Case>, log: Log) {
                             break;
                         }
                     }
+                    continue;
+                }
+                if let Op::FutJoin { .. } = op {
+                    ctx.run_join(k, op);
                     continue;
                 }
                 ctx.run_op(k, op);
